@@ -1220,7 +1220,29 @@ impl<B: Sym> Spec for Huff<B> {
         format!("Huffman<{}>", B::NAME)
     }
     fn gen(t: &mut Tape, p: &Gp) -> Vec<B> {
-        let n = if p.small { t.below(4) } else { t.len(6, 40) };
+        let n = if p.small { t.below(4) } else if p.big { t.len(8, 300) } else { t.len(6, 40) };
+        if !p.small && p.depth == 0 && t.chance(40) {
+            // a long, geometrically skewed item: as training data it yields codes of 9..14 bits,
+            // and (re-used after a merge) it exercises them
+            let m = 150 + t.below(250);
+            // expanded from two tape bytes (a pure function of the tape)
+            let seed = t.u16() as u64;
+            return (0..m as u64)
+                .map(|i| {
+                    let x = (crate::tape::splitmix64(seed * 1_000_003 + i) as u16) | 1;
+                    B::from_u16((x.leading_zeros() as u16).min(15))
+                })
+                .collect();
+        }
+        if !p.small && t.chance(80) {
+            // geometrically skewed symbols: trained containers get codes beyond 8 bits
+            return (0..n)
+                .map(|_| {
+                    let x = t.u16() | 1;
+                    B::from_u16((x.leading_zeros() as u16).min(15))
+                })
+                .collect();
+        }
         let alpha = if p.small { 3 } else { [2usize, 4, 9, 40][t.below(4)] };
         (0..n).map(|_| B::from_u16(t.below(alpha) as u16)).collect()
     }
